@@ -9,6 +9,7 @@ import sys
 import genlib
 
 OTHER = {"kotlin": "java", "java": "kotlin", "groovy": "scala", "scala": "groovy"}
+PKG = {"x": "src.x", "y": "src.y"}
 
 
 def dig(b):
@@ -26,15 +27,31 @@ def main():
             p = genlib.generate(seed)
             e, _ = genlib.erase(p, seed)
             w, tw = genlib.overwrite(e, seed)
-            q = genlib.generate(seed + 1000)
+            from src.generators.config import cfg
+            old = cfg.limits.fn.max_params
+            cfg.limits.fn.max_params = 5          # q: a program from the same generator under wider limits (more function arities)
+            try:
+                q = genlib.generate(seed + 1000)
+            finally:
+                cfg.limits.fn.max_params = old
             base = {"p": p, "e": e, "w": w, "q": q}
+            # the texts every later call must agree with: taken first in the process, each through a fresh translator
+            pre = []
+            for name in ("p", "e", "w", "q"):
+                for lg, lname in ((lang, "own"), (OTHER[lang], "other")):
+                    for pk in ("x", "y"):
+                        try:
+                            pre.append({"lang": lname, "pkg": pk, "prog": name, "text": dig(genlib.translate(base[name], tr=genlib.translator(lg, PKG[pk])))})
+                        except Exception:  # noqa: BLE001
+                            pass
             for hi, h in enumerate(hists):
                 # histories that mutate a program in place get their own copies of the program objects
                 progs = dict(base)
                 for name in {c["prog"] for c in h if c["op"] == "mut"}:
                     progs[name] = copy.deepcopy(base[name])
                 nmut = {"p": 0, "q": 0}
-                trs = {"A": genlib.translator(lang), "B": genlib.translator(OTHER[lang])}
+                trs = {"A": genlib.translator(lang, PKG["x"]), "B": genlib.translator(OTHER[lang], PKG["x"])}
+                cur = {"A": "x", "B": "x"}
                 steps = []
                 for c in h:
                     if c["op"] == "mut":
@@ -53,7 +70,13 @@ def main():
                             ok = ""
                         steps.append({"op": "mut", "tr": "-", "prog": c["prog"], "text": ok, "before": "", "after": ""})
                         continue
-                    tr = trs.get(c["tr"]) or genlib.translator(lang)
+                    if c["op"] == "pkg":
+                        # what the driver does for the incorrect program of an iteration: re-target the live translator
+                        trs[c["tr"]].package = PKG[c["prog"]]
+                        cur[c["tr"]] = c["prog"]
+                        steps.append({"op": "pkg", "tr": c["tr"], "prog": c["prog"], "text": "", "before": "", "after": ""})
+                        continue
+                    tr = trs.get(c["tr"]) or genlib.translator(lang, PKG[cur["A"]])
                     prog = progs[c["prog"]]
                     before = dig(pickle.dumps(prog))
                     try:
@@ -65,11 +88,11 @@ def main():
                     if c["tr"] == "A":
                         # reference call: the same program object through a fresh translator (an "F" step of the model)
                         try:
-                            ref = dig(genlib.translate(prog, tr=genlib.translator(lang)))
+                            ref = dig(genlib.translate(prog, tr=genlib.translator(lang, PKG[cur["A"]])))
                         except Exception:  # noqa: BLE001
                             ref = ""
-                        steps.append({"op": "tr", "tr": "F", "prog": c["prog"], "text": ref, "before": after, "after": dig(pickle.dumps(prog))})
-                cases.append({"id": "%s/%d/h%d" % (lang, seed, hi), "steps": steps})
+                        steps.append({"op": "tr", "tr": "F", "prog": c["prog"], "text": ref, "before": after, "after": dig(pickle.dumps(prog)), "ref": True})
+                cases.append({"id": "%s/%d/h%d" % (lang, seed, hi), "steps": steps, "pre": pre})
         return cases
     cases = genlib.in_big_stack(work)
     json.dump({"cases": cases}, open(out, "w"), separators=(",", ":"))
